@@ -36,6 +36,7 @@ import (
 	"sort"
 	"strconv"
 	"strings"
+	"sync"
 	"time"
 
 	"github.com/nsqio/nsq/nsqd"
@@ -467,9 +468,14 @@ type ctx struct {
 	a, b  *daemon
 	tlsd  *daemon
 	stats map[string]int
+	mu    sync.Mutex
 }
 
-func (c *ctx) count(k string) { c.stats[k]++ }
+func (c *ctx) count(k string) {
+	c.mu.Lock()
+	c.stats[k]++
+	c.mu.Unlock()
+}
 
 func qval(pairs [][2]string, key string) (string, bool) {
 	for _, p := range pairs {
@@ -836,6 +842,7 @@ type subproc struct {
 	httpAddr string
 	tcpAddr  string
 	dir      string
+	exited   chan struct{}
 }
 
 func startSubproc() *subproc {
@@ -856,7 +863,7 @@ func startSubproc() *subproc {
 	if err := cmd.Start(); err != nil {
 		lib.Fatalf("start nsqd binary: %v", err)
 	}
-	sp := &subproc{cmd: cmd, dir: dir}
+	sp := &subproc{cmd: cmd, dir: dir, exited: make(chan struct{})}
 	ready := make(chan struct{})
 	go func() {
 		sc := bufio.NewScanner(stderr)
@@ -878,16 +885,30 @@ func startSubproc() *subproc {
 	}()
 	select {
 	case <-ready:
-	case <-time.After(15 * time.Second):
+	case <-time.After(30 * time.Second):
 		cmd.Process.Kill()
 		lib.Fatalf("nsqd binary did not report its listeners")
 	}
+	go func() {
+		// (after the listeners were reported: the stderr reader has what it needs)
+		cmd.Wait()
+		close(sp.exited)
+	}()
 	return sp
+}
+
+func (sp *subproc) hasExited() bool {
+	select {
+	case <-sp.exited:
+		return true
+	default:
+		return false
+	}
 }
 
 func (sp *subproc) stop() {
 	sp.cmd.Process.Kill()
-	sp.cmd.Wait()
+	<-sp.exited
 	os.RemoveAll(sp.dir)
 }
 
@@ -1021,7 +1042,7 @@ func runHostile(c *ctx, in Input) {
 		hist[st]++
 		statuses = append(statuses, lib.CoqZ(int64(st)))
 	}
-	alive := rawStatus(sp.httpAddr, []byte("GET /ping HTTP/1.1\r\nHost: h\r\nConnection: close\r\n\r\n"), false) == 200 && sp.cmd.ProcessState == nil
+	alive := rawStatus(sp.httpAddr, []byte("GET /ping HTTP/1.1\r\nHost: h\r\nConnection: close\r\n\r\n"), false) == 200 && !sp.hasExited()
 	tags := []string{"kind=hostile", fmt.Sprintf("hostile-group=%d", in.Group%4), fmt.Sprintf("alive=%v", alive)}
 	for st, k := range hist {
 		tags = append(tags, fmt.Sprintf("hostile-status-%d(x%d)", st, k))
@@ -1817,9 +1838,23 @@ func main() {
 	for g := 0; g < *hostile; g++ {
 		ins = append(ins, Input{Kind: "hostile", Name: fmt.Sprintf("hostile-%d", g), Seed: hr.U64(), Group: g})
 	}
+	// the hostile groups each have their own subprocess daemon: run them alongside the rest
+	var hwg sync.WaitGroup
 	for _, in := range ins {
-		run(c, in)
+		if in.Kind == "hostile" {
+			hwg.Add(1)
+			go func(in Input) {
+				defer hwg.Done()
+				run(c, in)
+			}(in)
+		}
 	}
+	for _, in := range ins {
+		if in.Kind != "hostile" {
+			run(c, in)
+		}
+	}
+	hwg.Wait()
 	o.Stat("inputs", len(ins))
 	finish()
 }
